@@ -225,7 +225,7 @@ def check(pid, tier, replay_only=None):
                     undecided.append('kani: source file for harness %s missing (anchor lost)' % missing)
                 names = {kani_run.full_name(h[0], h[1]): h for h in hs if injected.get(h[0])}
                 r = kani_run.run_harnesses(scratch, list(names), jobs=cfg.get('kani_jobs', 6 if tier == 'thorough' else 12),   # thorough harnesses reach 7-12 GB each; 62 GB, no swap
-                                           harness_timeout=cfg.get('harness_timeout', 1500 if tier == 'thorough' else 900))
+                                           harness_timeout=cfg.get('harness_timeout', 1800 if tier == 'thorough' else 1500))
                 pr = kani_run.parse_results(r['out'], list(names))
                 kani_cmd = r['cmd']
                 build_failed = all(x['status'] == 'missing' for x in pr.values())
